@@ -632,8 +632,23 @@ func genRpcSchedule(r interface {
 			}
 		}
 	}
+	downAt := r.Pick(steps) // every non-snapshot case sends one batch while the raft group is down
 	for s := 0; s < steps; s++ {
 		c := 1 + r.Pick(k)
+		if class != "snap" && downs < 1 && s >= downAt && cur[c] < len(src[c]) {
+			to := cur[c] + 1 + r.Pick(2)
+			if to > len(src[c]) {
+				to = len(src[c])
+			}
+			var ents []string
+			for pos := cur[c]; pos < to; pos++ {
+				e := src[c][pos]
+				ents = append(ents, fmt.Sprintf("%d.%d.%d.%d.%d.-", e.c, e.t, e.i, e.ts, e.p))
+			}
+			ops = append(ops, "H:"+strings.Join(ents, ":"))
+			downs++
+			continue
+		}
 		if class == "snap" && restarts == 0 && r.Chance(0.35) {
 			fl := "-"
 			if !snapFiles {
